@@ -217,6 +217,10 @@ def _r056_xcube_axes(ctx: Ctx) -> None:
                 pre[n.targets[0].id] = ast.literal_eval(n.value)
             except ValueError:
                 pass
+        elif isinstance(n, ast.Assign) and isinstance(n.targets[0], ast.Name) and isinstance(n.value, ast.Call) \
+                and isinstance(n.value.func, ast.Name) and n.value.func.id == 'dict' and not n.value.args \
+                and all(k.arg and isinstance(k.value, ast.Constant) for k in n.value.keywords):
+            pre[n.targets[0].id] = {k.arg: k.value.value for k in n.value.keywords}      # dict(x=0, y=1, z=2)
     sized_calls = [c for c in ast.walk(loop) if isinstance(c, ast.Call) and ast.unparse(c.func) == 'decode_plane']
     lproj = [s_ for s_ in loop.body if isinstance(s_, ast.Assign) and isinstance(s_.targets[0], ast.Name)
              and any(isinstance(x, ast.Name) and x.id in names for x in ast.walk(s_.value))]
@@ -242,8 +246,12 @@ def _r056_xcube_axes(ctx: Ctx) -> None:
                                                  f'the extent along {axis}', got == (axis,),
                        f'{norm_stmt(s_)} gives the extent of {got}', key=f'XCube|{s_.targets[0].id}[{axis}]', facts=got)
         for c in sized_calls:
-            ctx.need(len(c.args) >= 2, 'R05.6', site_of(mi, c), 'decode_plane call without a size argument')
-            got = tags(c.args[1], names, local, dec)
+            # the second parameter of decode_plane, given by position or by keyword
+            dp = mi.functions.get('decode_plane')
+            pnames = [a.arg for a in dp.args.args] if dp is not None else ['loops', 'size']
+            size_arg = c.args[1] if len(c.args) >= 2 else next((k.value for k in c.keywords if len(pnames) > 1 and k.arg == pnames[1]), None)
+            ctx.need(size_arg is not None, 'R05.6', site_of(mi, c), 'decode_plane call without a size argument')
+            got = tags(size_arg, names, local, dec)
             want = tuple(a for a in AXES if a != axis)
             ctx.ob('R05.6', site_of(mi, c), f'XCubeMatchingDecoder.decode: decode_plane for projection axis {axis} gets the extents '
                                             f'of the two orthogonal axes', got == want,
